@@ -176,6 +176,7 @@ def poolStep (p : Pool) (args : List String) : Pool × String :=
   | ["addnb", id, amt] =>
     let (s, o) := storeStep p.store ["addnb", id, amt]
     ({ p with store := s }, o)
+  | ["sleep", _] => (p, "ok")
   | "dump" :: rest =>
     match findInt "now" rest with
     | some now => (p, dumpPool p now)
